@@ -77,7 +77,7 @@ class Ctx:
 
     # -------------------------------------------------------------------- TLC
     def tlc(self, module, cfg, name=None, overrides=None, workers=None, timeout=900, env=None,
-            simulate=None, depth=None, extra=None, must_finish=True):
+            simulate=None, depth=None, extra=None, must_finish=True, _nocov=False):
         """Run TLC in the scratch copy of spec/.  Returns a dict with the output
         path and the state counts.  overrides rewrites `Name = value` lines of
         the configuration (tier-dependent bounds)."""
@@ -106,6 +106,9 @@ class Ctx:
                 cmd += ["-depth", str(depth)]
             cmd += ["-seed", str(self.seed)]
         cmd += extra or []
+        coverage = bool(os.environ.get("VERIF_COVERAGE")) and not simulate and "TRACE_FILE" not in (env or {}) and not _nocov
+        if coverage:
+            cmd += ["-coverage", "1"]
         cmd.append(module + ".tla")
         t = time.time()
         e = dict(os.environ)
@@ -120,23 +123,62 @@ class Ctx:
         with open(out, "rb") as fh:
             fh.seek(0, 2)
             size = fh.tell()
-            fh.seek(max(0, size - 20000))
+            fh.seek(max(0, size - (20000000 if coverage else 20000)))
             tail = fh.read().decode("utf-8", "replace")
+        if coverage:
+            tail = "\n".join(l for l in tail.splitlines() if not l.startswith('"') and " of module " not in l)
         mo = re.findall(r"(\d[\d,]*) states generated, (\d[\d,]*) distinct states found", tail)
         if mo:
             info["generated"] = int(mo[-1][0].replace(",", ""))
             info["distinct"] = int(mo[-1][1].replace(",", ""))
         finished = "Model checking completed. No error has been found." in tail or (simulate and p.returncode in (0,))
         info["finished"] = bool(finished)
+        if coverage and must_finish and not finished:
+            # coverage bookkeeping can exhaust the heap on the deeply recursive operators: run again without it
+            print("  (coverage run of %s did not finish; repeated without -coverage)" % name, file=sys.stderr)
+            return self.tlc(module, cfg, name=name, overrides=overrides, workers=workers, timeout=timeout, env=env,
+                            simulate=simulate, depth=depth, extra=extra, must_finish=must_finish, _nocov=True)
         if must_finish and not finished:
             # find the error text (not a CASE line)
             errs = [l for l in tail.splitlines() if not l.startswith('"')][-40:]
             raise Inconclusive("TLC run %s did not complete cleanly (rc=%s, %.0fs):\n%s" %
                                (name, p.returncode, secs, "\n".join(errs)))
         self.tlc_runs.append(info)
+        if coverage:
+            self.collect_coverage(out)
         if os.environ.get("VERIF_VERBOSE"):
             print("  tlc %-28s %6.1fs  %d states" % (name, secs, info["distinct"]), file=sys.stderr)
         return info
+
+    def collect_coverage(self, out):
+        """VERIF_COVERAGE=1: keep, per expression location of the specification, the largest evaluation count
+        seen in any TLC run of this check (tools/coverage.py reports the locations that stay at 0)."""
+        pat = re.compile(r"^\s*\|*line (\d+), col (\d+) to line (\d+), col (\d+) of module (\w+): (\d+)(?::\d+)?\s*$")
+        act = re.compile(r"^<(\w+) line (\d+), col (\d+) to line (\d+), col (\d+) of module (\w+)(?: \([\d ]+\))?>: (\d+)(?::(\d+))?\s*$")
+        block = []
+        with open(out, errors="replace") as fh:
+            for line in fh:
+                if line.startswith('"'):
+                    continue
+                if line.startswith("The coverage statistics at"):
+                    block = []
+                block.append(line)
+        cov = getattr(self, "cov", None)
+        if cov is None:
+            cov = self.cov = {}
+        for line in block:
+            mo = pat.match(line)
+            if mo:
+                key = "%s:%s:%s-%s:%s" % (mo.group(5), mo.group(1), mo.group(2), mo.group(3), mo.group(4))
+                cov[key] = max(cov.get(key, 0), int(mo.group(6)))
+                continue
+            mo = act.match(line)
+            if mo:
+                key = "%s:%s:%s-%s:%s <%s>" % (mo.group(6), mo.group(2), mo.group(3), mo.group(4), mo.group(5), mo.group(1))
+                cov[key] = max(cov.get(key, 0), int(mo.group(8) or mo.group(7)))
+        d = os.path.join(VERIF, ".work", "coverage")
+        os.makedirs(d, exist_ok=True)
+        json.dump(cov, open(os.path.join(d, self.prop + ".json"), "w"))
 
     def tlc_trace(self, module, cfg, trace_file, chunks=8, timeout=3000):
         """Trace validation: split the ndjson trace into chunks and validate them with
